@@ -861,10 +861,10 @@ class ComponentBench:
 
     def skip(self, label: str, t: Dict) -> bool:
         """quick tier: a component that is present on a node that is ON goes through its own class every time and
-        through the parent observation every third time (thorough: both, always)."""
+        through the parent observation every fourth time (thorough: both, always)."""
         if self.thorough or not label.startswith("via-"):
             return False
-        return bool(t["exists"] and t["nodeOn"]) and self.n % 3 != 0
+        return bool(t["exists"] and t["nodeOn"]) and self.n % 4 != 0
 
     @staticmethod
     def _thr(key, c):
@@ -1294,10 +1294,10 @@ def variants(tier: str) -> List[Dict[str, Any]]:
         V.append(dict(label=label, cfg=cfg, episodes=episodes, steps=steps, extras=list(extras), constant=constant,
                       p_extra=p_extra, note=note, script=[None if i is None else list(extras)[i] for i in script]))
 
-    add("data_manipulation(flattened, as shipped)", dm(), 2 if quick else 3, 40 if quick else 128)
+    add("data_manipulation(flattened, as shipped)", dm(), 2 if quick else 3, 30 if quick else 128)
     c = dm()
     _proxy(c)["agent_settings"]["flatten_obs"] = False
-    add("data_manipulation(nested)", c, 2, 40 if quick else 128)
+    add("data_manipulation(nested)", c, 2, 30 if quick else 128)
     # rich observation x requires_scan toggles, adversarial blue actions, flood agents
     scans = [(True, True, True), (False, False, False)] + ([] if quick else [(True, False, True), (False, True, False)])
     for i, sc in enumerate(scans):
@@ -1311,7 +1311,7 @@ def variants(tier: str) -> List[Dict[str, Any]]:
                 c["game"]["thresholds"] = {"nmne": {"low": 0, "medium": 1, "high": 2}, "file_access": {"low": 0, "medium": 1, "high": 2},
                                            "app_executions": {"low": 0, "medium": 1, "high": 3}}
             add(f"data_manipulation(rich obs, requires_scan fs/svc/app={sc}, flatten={flat}, adversarial+flood6)", c,
-                2, 50 if quick else 120, ex)
+                2, 40 if quick else 120, ex)
     # many agents in one tick: counts past the top threshold
     c = dm()
     rich_observation(c, scan=(False, False, False))
